@@ -20,6 +20,7 @@ import (
 	"github.com/obolnetwork/charon/core"
 
 	"verifsim/cluster"
+	"verifsim/simdata"
 )
 
 func rootOf(tag byte, a, b uint64) (r eth2p0.Root) {
@@ -103,4 +104,28 @@ func unsignedSet(cl *cluster.Cluster, duty core.Duty, cand int) core.UnsignedDat
 		return core.UnsignedDataSet{v.CorePK: core.NewSyncContribution(candContribution(cand, duty.Slot, 1))}
 	}
 	panic("c04w: no unsigned data for " + duty.String())
+}
+
+// inflate adds entries for further validators (synthetic public keys; consensus agrees on sets, it does not look
+// into them) to an aggregator or sync contribution set: a cluster with hundreds of validators proposes sets of
+// tens to hundreds of kilobytes with hundreds of map entries.
+func inflate(cl *cluster.Cluster, duty core.Duty, cand int, set core.UnsignedDataSet, entries int) core.UnsignedDataSet {
+	v := cl.Vals[0]
+	for k := 1; k < entries; k++ {
+		pk := simdata.PubKey(1000 + k)
+		switch duty.Type {
+		case core.DutyAggregator:
+			data := *cl.AttData(0, eth2p0.Slot(duty.Slot), v.Committee)
+			data.Index = eth2p0.CommitteeIndex(k % 64)
+			data.BeaconBlockRoot[5] = byte(k)
+			a, err := core.NewVersionedAggregatedAttestation(candAggregate(cand, &data))
+			if err != nil {
+				panic(err)
+			}
+			set[pk] = a
+		case core.DutySyncContribution:
+			set[pk] = core.NewSyncContribution(candContribution(cand, duty.Slot, uint64(k%4)))
+		}
+	}
+	return set
 }
